@@ -76,7 +76,8 @@ class ONIOMProblemDecomposition(ProblemDecomposition):
         for fragment in self.fragments:
             # Case when no atom are selected -> whole system.
             if fragment.selected_atoms is None:
-                fragment.geometry = self.geometry
+                # Copy of the list: capping atoms appended below must not end up in the geometry of the whole system
+                fragment.geometry = list(self.geometry)
             # Case where an int is detected -> first n atoms.
             elif type(fragment.selected_atoms) is int:
                 fragment.geometry = self.geometry[:fragment.selected_atoms]
